@@ -2,7 +2,7 @@
    every address byte carries 7 address bits in bits 7..1; bit 0 is 0 on all bytes but the last.
    Client: one byte.  Server: one byte (upper address only), two bytes (one-byte upper and
    lower address), or four bytes (two-byte upper and lower address). *)
-From Dlms Require Import Base.
+From Dlms Require Import Base AddrModel.
 
 Definition seven (x : N) (last : bool) : N := 2 * (x mod 128) + (if last then 1 else 0).
 Definition std_client (a : N) : bytes := [seven a true].
@@ -21,3 +21,16 @@ Definition std_decode (ab : bytes) : option (N * option N) :=
   | [a; b; c; d] => Some (a / 2 * 128 + b / 2, Some (c / 2 * 128 + d / 2))
   | _ => None
   end.
+
+(* the accepted addresses for which the library's encoding exists in the standard
+   (known finding F13a: a server upper address > 127 without a lower address has no 1/2/4-byte
+   form; a client address given a physical part silently drops it) *)
+Definition addr_ok (a : addr) : Prop :=
+  match a with
+  | (l, None, _) => l <= 127
+  | (l, Some p, true) => l <= 16383 /\ p <= 16383
+  | (_, Some _, false) => False
+  end.
+Definition std_addr (a : addr) : bytes :=
+  let '(l, p, server) := a in if server then std_server l p else std_client l.
+
